@@ -12,6 +12,9 @@ use bitcoincore_rpc::{
     Client as BitcoindClient, Error::JsonRpc as JsonRpcError, RpcApi,
 };
 
+/// Time between checks of whether bitcoind is back while waiting for it to be flagged as reachable.
+const RECONNECTION_PROBE_INTERVAL: std::time::Duration = std::time::Duration::from_secs(10);
+
 /// Component in charge of the interaction with Bitcoind by sending / querying transactions via RPC.
 #[derive(Debug)]
 pub struct Carrier {
@@ -60,11 +63,29 @@ impl Carrier {
     }
 
     /// Hangs the process until bitcoind is reachable. If bitcoind is already reachable it just passes trough.
+    ///
+    /// Bitcoind is normally flagged as reachable by the [ChainMonitor](crate::chain_monitor::ChainMonitor) at the end of a
+    /// successful poll. However, the one waiting here may be the chain monitor itself (a breach being handled while a block is
+    /// processed), or may be holding a lock the chain monitor needs to finish its poll. So nobody may be left to notify us: every
+    /// [RECONNECTION_PROBE_INTERVAL] we check ourselves whether bitcoind is back.
     fn hang_until_bitcoind_reachable(&self) {
         let (lock, notifier) = &*self.bitcoind_reachable;
         let mut reachable = lock.lock().unwrap();
         while !*reachable {
-            reachable = notifier.wait(reachable).unwrap();
+            let (guard, wait_result) = notifier
+                .wait_timeout(reachable, RECONNECTION_PROBE_INTERVAL)
+                .unwrap();
+            reachable = guard;
+            if !*reachable && wait_result.timed_out() {
+                drop(reachable);
+                let is_back = self.bitcoin_cli.get_block_count().is_ok();
+                reachable = lock.lock().unwrap();
+                if is_back {
+                    log::info!("Connection with bitcoind restored");
+                    *reachable = true;
+                    notifier.notify_all();
+                }
+            }
         }
     }
 
